@@ -1062,6 +1062,10 @@ def run(chk: Check) -> None:
     from rules.shared import merge_identity_rule
     merge_identity_rule(chk, "C04-D12", ("yamlpath/processor.py",), 3)
     d13_gathered_order_is_kept(chk)
+    from rules.shared import passthrough_of_existing_coordinates_rule
+    passthrough_of_existing_coordinates_rule(
+        chk, "C04-D14", ("KeywordSearches.unique",
+                         "KeywordSearches.distinct"), 2)
     d2b_ascending_gather(chk)
     from rules.c06 import falsy_rule
     falsy_rule(chk, "C04-D8", "yamlpath/processor.py", 30,
